@@ -118,8 +118,16 @@ where
     T: FixedPointOps<D> + CheckedSub + Copy + kani::Arbitrary + Into<u32> + num_traits::Bounded,
     T::Signed: Num + Copy + kani::Arbitrary,
 {
-    let is_long: bool = kani::any();
-    let cl: bool = kani::any();
+    liq_state_for::<T, D>(level, kani::any(), kani::any())
+}
+
+/// As [`liq_state`] for a given side / collateral token (concrete flags let the symbolic execution
+/// fold the parts that only depend on concrete pools).
+pub fn liq_state_for<T, const D: u8>(level: u8, is_long: bool, cl: bool) -> (VPosition<T, D>, Prices<T>)
+where
+    T: FixedPointOps<D> + CheckedSub + Copy + kani::Arbitrary + Into<u32> + num_traits::Bounded,
+    T::Signed: Num + Copy + kani::Arbitrary,
+{
     let mut m = VMarket::<T, D>::zero();
     if level == 0 {
         let (oit, liq): (T, T) = (kani::any(), kani::any());
@@ -167,12 +175,12 @@ where
     kani::assume(*m.open_interest_in_tokens.get(is_long).side(cl) >= p.size_in_tokens);
     let prices = if level == 0 {
         let index: gmsol_model::price::Price<T> = any_price();
-        let c: T = kani::any();
-        kani::assume(!index.min.is_zero() && index.min <= index.max && !c.is_zero());
+        let (c_long, c_short): (T, T) = (kani::any(), kani::any());
+        kani::assume(!index.min.is_zero() && index.min <= index.max && !c_long.is_zero() && !c_short.is_zero());
         Prices {
             index_token_price: index,
-            long_token_price: gmsol_model::price::Price { min: c, max: c },
-            short_token_price: gmsol_model::price::Price { min: c, max: c },
+            long_token_price: gmsol_model::price::Price { min: c_long, max: c_long },
+            short_token_price: gmsol_model::price::Price { min: c_short, max: c_short },
         }
     } else {
         any_prices(true)
@@ -289,12 +297,15 @@ where
     })
 }
 
-fn check_liquidatable_exact<T, const D: u8>(level: u8)
+fn check_liquidatable_exact<T, const D: u8>(level: u8, side: Option<(bool, bool)>)
 where
     T: FixedPointOps<D> + CheckedSub + Copy + kani::Arbitrary + Into<u32> + num_traits::Bounded,
     T::Signed: Num + Copy + kani::Arbitrary,
 {
-    let (p, prices) = liq_state::<T, D>(level);
+    let (p, prices) = match side {
+        Some((is_long, cl)) => liq_state_for::<T, D>(level, is_long, cl),
+        None => liq_state::<T, D>(level),
+    };
     let validate_min: bool = kani::any();
     let for_liquidation: bool = kani::any();
     let r = p.check_liquidatable(&prices, validate_min, for_liquidation);
@@ -320,17 +331,47 @@ where
 #[kani::proof]
 #[kani::unwind(4)]
 fn c09_check_liquidatable_exact_u8() {
-    check_liquidatable_exact::<u8, 1>(1);
+    check_liquidatable_exact::<u8, 1>(1, None);
+}
+
+//@ prop=C09 tier=thorough kind=hold
+//@ enc=PositionExt::check_liquidatable, PositionExt::pnl_value, MarketUtils::cap_pnl, BaseMarketExt::pnl, PositionExt::collateral_value, PositionExt::position_price_impact, PositionExt::position_fees, position::check_collateral
+//@ bound=T=u8, DECIMALS=1: long position with long-token collateral, size in usd = 100 (own usd open-interest slot 120, other slots 0); every size in tokens, collateral, own open-interest-in-tokens slot, own side of the liquidity pool, trader pnl factor, position thresholds (incl. the optional liquidation factor), index price with spread, flat long/short token prices, both flags; fees and position-impact factors zero
+//@ stubs=none; assumed: the position's pool slots contain the position
+#[kani::proof]
+#[kani::unwind(4)]
+fn c09_check_liquidatable_exact_long_lc_u8() {
+    check_liquidatable_exact::<u8, 1>(0, Some((true, true)));
 }
 
 //@ prop=C09 tier=quick kind=hold
 //@ enc=PositionExt::check_liquidatable, PositionExt::pnl_value, MarketUtils::cap_pnl, BaseMarketExt::pnl, PositionExt::collateral_value, PositionExt::position_price_impact, PositionExt::position_fees, position::check_collateral
-//@ bound=T=u8, DECIMALS=1: position size in usd = 100 (own usd open-interest slot 120, other slots 0); every size in tokens, collateral, side, collateral token, own open-interest-in-tokens slot, own side of the liquidity pool, trader pnl factor, position thresholds (incl. the optional liquidation factor), index price with spread, flat collateral price, both flags; fees and position-impact factors zero
+//@ bound=T=u8, DECIMALS=1: long position with short-token collateral, size in usd = 100 (own usd open-interest slot 120, other slots 0); every size in tokens, collateral, own open-interest-in-tokens slot, own side of the liquidity pool, trader pnl factor, position thresholds (incl. the optional liquidation factor), index price with spread, flat long/short token prices, both flags; fees and position-impact factors zero
 //@ stubs=none; assumed: the position's pool slots contain the position
 #[kani::proof]
 #[kani::unwind(4)]
-fn c09_check_liquidatable_exact_own_slots_u8() {
-    check_liquidatable_exact::<u8, 1>(0);
+fn c09_check_liquidatable_exact_long_sc_u8() {
+    check_liquidatable_exact::<u8, 1>(0, Some((true, false)));
+}
+
+//@ prop=C09 tier=quick kind=hold
+//@ enc=PositionExt::check_liquidatable, PositionExt::pnl_value, MarketUtils::cap_pnl, BaseMarketExt::pnl, PositionExt::collateral_value, PositionExt::position_price_impact, PositionExt::position_fees, position::check_collateral
+//@ bound=T=u8, DECIMALS=1: short position with long-token collateral, size in usd = 100 (own usd open-interest slot 120, other slots 0); every size in tokens, collateral, own open-interest-in-tokens slot, own side of the liquidity pool, trader pnl factor, position thresholds (incl. the optional liquidation factor), index price with spread, flat long/short token prices, both flags; fees and position-impact factors zero
+//@ stubs=none; assumed: the position's pool slots contain the position
+#[kani::proof]
+#[kani::unwind(4)]
+fn c09_check_liquidatable_exact_short_lc_u8() {
+    check_liquidatable_exact::<u8, 1>(0, Some((false, true)));
+}
+
+//@ prop=C09 tier=thorough kind=hold
+//@ enc=PositionExt::check_liquidatable, PositionExt::pnl_value, MarketUtils::cap_pnl, BaseMarketExt::pnl, PositionExt::collateral_value, PositionExt::position_price_impact, PositionExt::position_fees, position::check_collateral
+//@ bound=T=u8, DECIMALS=1: short position with short-token collateral, size in usd = 100 (own usd open-interest slot 120, other slots 0); every size in tokens, collateral, own open-interest-in-tokens slot, own side of the liquidity pool, trader pnl factor, position thresholds (incl. the optional liquidation factor), index price with spread, flat long/short token prices, both flags; fees and position-impact factors zero
+//@ stubs=none; assumed: the position's pool slots contain the position
+#[kani::proof]
+#[kani::unwind(4)]
+fn c09_check_liquidatable_exact_short_sc_u8() {
+    check_liquidatable_exact::<u8, 1>(0, Some((false, false)));
 }
 
 // ------------------------------------------------------------------------------------------------
@@ -362,12 +403,15 @@ where
     }
 }
 
-fn liquidation_gate<T, const D: u8>(level: u8, self_oracle: bool)
+fn liquidation_gate<T, const D: u8>(level: u8, self_oracle: bool, side: Option<(bool, bool)>)
 where
     T: FixedPointOps<D> + CheckedSub + Copy + kani::Arbitrary + Into<u32> + num_traits::Bounded,
     T::Signed: Num + Copy + kani::Arbitrary,
 {
-    let (p, prices) = liq_state::<T, D>(level);
+    let (p, prices) = match side {
+        Some((is_long, cl)) => liq_state_for::<T, D>(level, is_long, cl),
+        None => liq_state::<T, D>(level),
+    };
     let flags = DecreasePositionFlags {
         is_insolvent_close_allowed: kani::any(),
         is_liquidation_order: kani::any(),
@@ -406,14 +450,24 @@ where
     core::mem::forget(gate);
 }
 
-//@ prop=C09 tier=quick kind=hold
+//@ prop=C09 tier=thorough kind=hold
 //@ enc=DecreasePosition::try_new, DecreasePosition::check_liquidation, PositionExt::check_liquidatable (pnl_value, cap_pnl, collateral_value, position_price_impact, position_fees, check_collateral)
-//@ bound=T=u8, DECIMALS=1: state space of c09_check_liquidatable_exact_own_slots_u8, every size delta and flag combination
-//@ stubs=none; reference = exact remaining-collateral rule in wider integers (pnl with trader cap, liquidation thresholds); hook: DecreasePosition::verif_check_liquidation
+//@ bound=T=u8, DECIMALS=1: state space of c09_check_liquidatable_exact_long_sc_u8, every size delta and flag combination
+//@ stubs=none; reference = exact remaining-collateral rule in wider integers (pnl with trader cap, liquidation thresholds, min collateral value); hook: DecreasePosition::verif_check_liquidation
 #[kani::proof]
 #[kani::unwind(4)]
-fn c09_liquidation_gate_u8() {
-    liquidation_gate::<u8, 1>(0, true);
+fn c09_liquidation_gate_long_sc_u8() {
+    liquidation_gate::<u8, 1>(0, false, Some((true, false)));
+}
+
+//@ prop=C09 tier=thorough kind=hold
+//@ enc=DecreasePosition::try_new, DecreasePosition::check_liquidation, PositionExt::check_liquidatable (pnl_value, cap_pnl, collateral_value, position_price_impact, position_fees, check_collateral)
+//@ bound=T=u8, DECIMALS=1: state space of c09_check_liquidatable_exact_short_lc_u8, every size delta and flag combination
+//@ stubs=none; reference = exact remaining-collateral rule in wider integers (pnl with trader cap, liquidation thresholds, min collateral value); hook: DecreasePosition::verif_check_liquidation
+#[kani::proof]
+#[kani::unwind(4)]
+fn c09_liquidation_gate_short_lc_u8() {
+    liquidation_gate::<u8, 1>(0, false, Some((false, true)));
 }
 
 //@ prop=C09 tier=thorough kind=hold
@@ -424,7 +478,7 @@ fn c09_liquidation_gate_u8() {
 #[kani::proof]
 #[kani::unwind(4)]
 fn c09_liquidation_gate_all_pools_u8() {
-    liquidation_gate::<u8, 1>(1, false);
+    liquidation_gate::<u8, 1>(1, false, None);
 }
 
 //@ prop=C09 tier=thorough kind=hold
@@ -435,15 +489,93 @@ fn c09_liquidation_gate_all_pools_u8() {
 #[kani::proof]
 #[kani::unwind(4)]
 fn c09_liquidation_gate_with_fees_u8() {
-    liquidation_gate::<u8, 1>(2, true);
+    liquidation_gate::<u8, 1>(2, true, None);
 }
 
-fn validate_implies_healthy<T, const D: u8>(level: u8, self_oracle: bool)
+/// The gate's own logic on a mostly concrete state: size 100 usd / 10 tokens, index price 10, long
+/// token price 2, short token price 1, min collateral value 5, leverage factor 10% (liquidation
+/// factor symbolic: none or any value); only the collateral amount, the optional liquidation factor,
+/// the side flags and the order flags are symbolic. The health then ranges over all four verdicts.
+fn liquidation_gate_concrete_state<T, const D: u8>()
 where
     T: FixedPointOps<D> + CheckedSub + Copy + kani::Arbitrary + Into<u32> + num_traits::Bounded,
     T::Signed: Num + Copy + kani::Arbitrary,
 {
-    let (p, prices) = liq_state::<T, D>(level);
+    let n = |v: u8| T::from_u8(v).unwrap();
+    let is_long: bool = kani::any();
+    let cl: bool = kani::any();
+    let mut m = VMarket::<T, D>::zero();
+    let pool = m.open_interest.get_mut(is_long);
+    if cl { pool.long = n(120) } else { pool.short = n(120) }
+    let pool = m.open_interest_in_tokens.get_mut(is_long);
+    if cl { pool.long = n(12) } else { pool.short = n(12) }
+    m.liquidity = VPool { long: n(100), short: n(100) };
+    m.pnl_factor.trader = Side2::both(T::UNIT);
+    m.position_params.min_collateral_value = n(5);
+    m.position_params.min_collateral_factor = n(1);
+    m.position_params.min_collateral_factor_for_liquidation = kani::any();
+    m.position_impact_params.exponent = T::UNIT;
+    m.funding_amount_per_size_adjustment = T::one();
+    let mut p = VPosition::<T, D>::zero(m, is_long, cl);
+    p.size_in_usd = n(100);
+    p.size_in_tokens = n(10);
+    p.collateral_amount = kani::any();
+    let prices = flat_prices(n(10), n(2), n(1));
+    let flags = DecreasePositionFlags {
+        is_insolvent_close_allowed: kani::any(),
+        is_liquidation_order: kani::any(),
+        is_cap_size_delta_usd_allowed: kani::any(),
+    };
+    let delta: T = kani::any();
+    let a = DecreasePosition::try_new(p, prices, delta, None, T::zero(), flags);
+    let Ok(a) = a else {
+        core::mem::forget(a);
+        return;
+    };
+    let health = liquidatable_ref(&p, &prices, true, true);
+    let gate = a.verif_check_liquidation();
+    if !flags.is_liquidation_order {
+        assert!(gate.is_ok());
+        kani::cover!(matches!(health, Some(Verdict::Leverage)), "ordinary decrease of an unhealthy position passes the gate");
+    } else {
+        match &gate {
+            Ok(()) => {
+                assert!(matches!(health, Some(v) if v != Verdict::Healthy));
+                kani::cover!(matches!(health, Some(Verdict::MinCollateral)), "admitted: below min collateral value");
+                kani::cover!(matches!(health, Some(Verdict::Leverage)), "admitted: leverage");
+            }
+            Err(gmsol_model::Error::NotLiquidatable) => {
+                assert!(matches!(health, Some(Verdict::Healthy)));
+                kani::cover!(true, "liquidation of a healthy position rejected");
+            }
+            Err(_) => {
+                // nothing overflows on this state except the collateral value for large amounts
+                assert!(w(p.collateral_amount) * w(if cl { n(2) } else { n(1) }) > w(T::max_value()) / 2);
+            }
+        }
+    }
+    core::mem::forget(gate);
+}
+
+//@ prop=C09 tier=quick kind=hold
+//@ enc=DecreasePosition::try_new, DecreasePosition::check_liquidation, PositionExt::check_liquidatable
+//@ bound=T=u8, DECIMALS=1: concrete position (100 usd / 10 tokens) and market (own open interest 120 / 12, liquidity 100/100, prices 10 / 2 / 1, min collateral value 5, leverage factor 10%); symbolic: collateral amount, optional liquidation factor, side, collateral token, size delta and the three order flags
+//@ stubs=none; reference = exact remaining-collateral rule in wider integers; hook: DecreasePosition::verif_check_liquidation. The same gate on the symbolic states of the c09_check_liquidatable_exact_* harnesses runs in the thorough tier
+#[kani::proof]
+#[kani::unwind(4)]
+fn c09_liquidation_gate_concrete_state_u8() {
+    liquidation_gate_concrete_state::<u8, 1>();
+}
+
+fn validate_implies_healthy<T, const D: u8>(level: u8, self_oracle: bool, side: Option<(bool, bool)>)
+where
+    T: FixedPointOps<D> + CheckedSub + Copy + kani::Arbitrary + Into<u32> + num_traits::Bounded,
+    T::Signed: Num + Copy + kani::Arbitrary,
+{
+    let (p, prices) = match side {
+        Some((is_long, cl)) => liq_state_for::<T, D>(level, is_long, cl),
+        None => liq_state::<T, D>(level),
+    };
     let check_size: bool = kani::any();
     let check_min_collateral: bool = kani::any();
     let health = health_ref(self_oracle, &p, &prices, check_min_collateral, false);
@@ -476,12 +608,22 @@ where
 
 //@ prop=C09 tier=quick kind=hold
 //@ enc=PositionExt::validate, PositionExt::check_liquidatable (pnl_value, cap_pnl, collateral_value, position_price_impact, position_fees, check_collateral)
-//@ bound=T=u8, DECIMALS=1: state space of c09_check_liquidatable_exact_own_slots_u8, both validation options
+//@ bound=T=u8, DECIMALS=1: state space of c09_check_liquidatable_exact_long_lc_u8, both validation options
 //@ stubs=none; reference = exact remaining-collateral rule in wider integers (regular thresholds)
 #[kani::proof]
 #[kani::unwind(4)]
-fn c09_validate_implies_healthy_u8() {
-    validate_implies_healthy::<u8, 1>(0, true);
+fn c09_validate_implies_healthy_long_lc_u8() {
+    validate_implies_healthy::<u8, 1>(0, false, Some((true, true)));
+}
+
+//@ prop=C09 tier=quick kind=hold
+//@ enc=PositionExt::validate, PositionExt::check_liquidatable (pnl_value, cap_pnl, collateral_value, position_price_impact, position_fees, check_collateral)
+//@ bound=T=u8, DECIMALS=1: state space of c09_check_liquidatable_exact_short_sc_u8, both validation options
+//@ stubs=none; reference = exact remaining-collateral rule in wider integers (regular thresholds)
+#[kani::proof]
+#[kani::unwind(4)]
+fn c09_validate_implies_healthy_short_sc_u8() {
+    validate_implies_healthy::<u8, 1>(0, false, Some((false, false)));
 }
 
 //@ prop=C09 tier=thorough kind=hold
@@ -492,5 +634,6 @@ fn c09_validate_implies_healthy_u8() {
 #[kani::proof]
 #[kani::unwind(4)]
 fn c09_validate_implies_healthy_with_fees_u8() {
-    validate_implies_healthy::<u8, 1>(2, true);
+    validate_implies_healthy::<u8, 1>(2, true, None);
 }
+
